@@ -29,7 +29,7 @@ COMPONENTS = {"real": ["amaranth.hdl._ir (build_netlist, emit_rhs/emit_assign/em
               "stub": ["RTLIL interpreter dsim/rtlil_eval.py (there is no Yosys offline)", "PermSet scheduler seam",
                        "clock/reset driver"]}
 EXPECTED_PROBES = ("sched", "coincide", "srst", "arst", "submodules", "fsm", "part", "array", "reset_inserter", "enable_inserter",
-                   "domain_renamer", "memory_design", "library_design", "library_C12", "library_C13", "library_C16", "library_C17", "library_C18", "compared_bits", "undefined_bits_skipped", "internal_signals")
+                   "domain_renamer", "memory_design", "library_design", "library_C12", "library_C13", "library_C16", "library_C17", "library_C18", "library_WIRE", "compared_bits", "undefined_bits_skipped", "internal_signals")
 OPTS = {"max_domains": 3, "max_modules": 4, "wrappers": True, "prints": False, "fsm": True, "max_stmts": 8, "depth": 2,
         "clock_reads": True, "shadows": True, "derived_clocks": True}
 CHUNK = 4
@@ -44,7 +44,19 @@ def gen_case_i(seed, tier, index):
     if index % 8 == 5:
         # library components (real FIFOs with their synchronisers and memories, CRC processors) under their own C12/C13/C16
         # schedules: simulator vs emitted RTLIL
-        which = ["C12", "C13", "C16", "C17", "C18"][(index // 8) % 5]
+        which = ["C12", "C13", "C16", "C17", "C18", "WIRE"][(index // 8) % 6]
+        if which == "WIRE":
+            # a wiring.Component with stream interfaces (optionally always_ready / always_valid, whose members are constants),
+            # converted with the ports inferred from its signature
+            w = cfg.choice([1, 4, 8])
+            config = {"width": w, "always_ready": cfg.random() < 0.5, "always_valid": cfg.random() < 0.4, "edge": "pos"}
+            steps, lvl = [], 0
+            for _ in range(cfg.randint(10, 60)):
+                if wl.random() < 0.6:
+                    steps.append({"k": "set", "v": {"i_payload": wl.randrange(1 << w), "i_valid": wl.randint(0, 1), "o_ready": wl.randint(0, 1)}})
+                lvl ^= 1
+                steps.append({"k": "clk", "l": lvl})
+            return {"kind": "lib", "lib": "WIRE", "config": config, "steps": steps, "sched": sched}
         from dsim import runner as _r
         mod = _r.load(which)
         c = _r.gen(mod, seed, tier, index)
@@ -383,6 +395,46 @@ def lib_adapter(which, config):
             if st["k"] == "rrst":
                 return ("drive", {"read.rst": st["l"]})
             return ("set", st["v"]) if st["k"] == "set" else ("drive", {k + ".clk": v for k, v in st["l"].items()})
+    elif which == "WIRE":
+        from amaranth.hdl import Module, Const
+        from amaranth.lib import stream, wiring
+        from amaranth.lib.wiring import In, Out
+        w_ = config["width"]
+
+        class Stage(wiring.Component):
+            def __init__(self):
+                super().__init__({"i": In(stream.Signature(w_, always_ready=config["always_ready"])),
+                                  "o": Out(stream.Signature(w_ + 1, always_valid=config["always_valid"]))})
+
+            def elaborate(self, platform):
+                m = Module()
+                if not config["always_ready"]:
+                    m.d.comb += self.i.ready.eq(self.o.ready)
+                with m.If(self.i.valid & self.i.ready):
+                    m.d.sync += self.o.payload.eq(self.i.payload + 1)
+                    if not config["always_valid"]:
+                        m.d.sync += self.o.valid.eq(1)
+                if not config["always_valid"]:
+                    with m.Elif(self.o.ready):
+                        m.d.sync += self.o.valid.eq(0)
+                return m
+        dut = Stage()
+        doms = [DomainSpec("sync", edge=config["edge"])]
+        ins = {"i_payload": dut.i.payload, "i_valid": dut.i.valid, "o_ready": dut.o.ready}
+        outs = {"o_payload": dut.o.payload}
+        if not isinstance(dut.o.valid, Const):
+            outs["o_valid"] = dut.o.valid
+        if not isinstance(dut.i.ready, Const):
+            outs["i_ready"] = dut.i.ready
+
+        def tr(st):
+            return ("set", st["v"]) if st["k"] == "set" else ("drive", {"sync.clk": st["l"]})
+        # conversion with the ports inferred from the component's signature (a fresh object: elaboration freezes it)
+        from amaranth.back import rtlil as _rtlil
+        txt = _rtlil.convert(Stage())
+        for nm in ("i__payload", "o__payload"):
+            if nm not in txt:
+                raise Violation("component_port_missing", -1, {"port": nm})
     elif which == "C18":
         # I/O buffers on composed simulation ports: per-bit inversion, one register stage per direction, tristate loop-back
         from amaranth.hdl import Module, Elaboratable
@@ -599,6 +651,8 @@ def signature(case, violation):
 
 def simplify(case):
     if case.get("kind") == "lib":
+        if case["lib"] == "WIRE":
+            return
         from dsim import runner as _r
         sm = getattr(_r.load(case["lib"]), "simplify", None)
         if sm:
